@@ -44,7 +44,9 @@ class ListWrapper(typing.MutableSequence[T]):
     def __init__(self, *args: typing.Iterable[T]):
         self._data: typing.List[T] = []
         for values in args:
-            for value in values:
+            # A copy: adding an item owned by another wrapper removes it from
+            # there, which may be the very collection being iterated.
+            for value in list(values):
                 self.append(value)
 
     def _add(self, value: T) -> None:
@@ -144,7 +146,7 @@ class ListWrapper(typing.MutableSequence[T]):
     # extend is not in every version of Python 3, so list wrapper adds it here
     # itself.
     def extend(self, other: typing.Iterable[T]) -> None:
-        for v in other:
+        for v in list(other):
             self.append(v)
 
     # The mixin reverses by swapping items, which would pass through states
@@ -174,7 +176,9 @@ class SetWrapper(typing.MutableSet[T]):
     def __init__(self, *args: typing.Iterable[T]):
         self._data: typing.Set[T] = set()
         for arg in args:
-            for v in arg:
+            # A copy: adding an item owned by another wrapper removes it from
+            # there, which may be the very collection being iterated.
+            for v in list(arg):
                 self.add(v)
 
     # The results of the set operators (&, |, -, ^ and the in-place forms
@@ -223,9 +227,14 @@ class SetWrapper(typing.MutableSet[T]):
     def __ior__(  # type: ignore
         self: _SetWrapperSelf, other: typing.AbstractSet[T]
     ) -> _SetWrapperSelf:
-        for value in other:
+        for value in list(other):
             self.add(value)
         return self
+
+    def __ixor__(  # type: ignore
+        self: _SetWrapperSelf, other: typing.AbstractSet[T]
+    ) -> _SetWrapperSelf:
+        return super().__ixor__(set(other))  # type: ignore
 
     def pop(self) -> T:
         it = iter(self)
@@ -245,7 +254,7 @@ class SetWrapper(typing.MutableSet[T]):
     # For whatever reason, update isn't included as part of abc.MutableSet.
     def update(self, *others: typing.Iterable[T]) -> None:
         for other in others:
-            for v in other:
+            for v in list(other):
                 self.add(v)
 
     def __str__(self) -> str:
